@@ -501,6 +501,12 @@ func richCerts() []*built {
 	regID := gn(8, der.OIDContent(1, 3, 6, 1, 4, 1, 55555, 3))
 	mk("san-all-general-name-kinds", pki.Tmpl{Exts: []pki.Ext{{OID: pki.OIDSAN, Value: der.Seq(otherName, gn(2, []byte("x.example.com")), dirName, regID, gn(7, sanIP[0]))}}})
 	mk("san-only-unparsed-kinds-critical-empty-subject", pki.Tmpl{Subject: pki.Name{}, Exts: []pki.Ext{{OID: pki.OIDSAN, Critical: true, Value: der.Seq(dirName, regID)}}})
+	// a critical subjectAltName with an empty subject, holding names of ONE parsed kind only (SPIFFE-style
+	// URI-only certificates and their DNS / e-mail / IP counterparts): handled, so not "unhandled critical"
+	mk("san-uri-only-critical-empty-subject", pki.Tmpl{Subject: pki.Name{}, Exts: []pki.Ext{{OID: pki.OIDSAN, Critical: true, Value: der.Seq(gn(6, []byte("spiffe://example.org/workload")), gn(6, []byte("https://example.org/")))}}})
+	mk("san-dns-only-critical-empty-subject", pki.Tmpl{Subject: pki.Name{}, Exts: []pki.Ext{{OID: pki.OIDSAN, Critical: true, Value: der.Seq(gn(2, []byte("only.example.com")))}}})
+	mk("san-email-only-critical-empty-subject", pki.Tmpl{Subject: pki.Name{}, Exts: []pki.Ext{{OID: pki.OIDSAN, Critical: true, Value: der.Seq(gn(1, []byte("only@example.com")))}}})
+	mk("san-ip-only-critical-empty-subject", pki.Tmpl{Subject: pki.Name{}, Exts: []pki.Ext{{OID: pki.OIDSAN, Critical: true, Value: der.Seq(gn(7, sanIP[0]))}}})
 	mk("aki-with-issuer-and-serial", pki.Tmpl{Exts: []pki.Ext{{OID: pki.OIDAKI, Value: der.Seq(der.ImplicitPrim(0, akiBytes), der.ImplicitCons(1, dirName), der.ImplicitPrim(2, []byte{0x05}))}}})
 	mk("aki-without-keyid", pki.Tmpl{Exts: []pki.Ext{{OID: pki.OIDAKI, Value: der.Seq(der.ImplicitCons(1, dirName), der.ImplicitPrim(2, []byte{0x05}))}}})
 	mk("crldp-reasons-and-crlissuer", pki.Tmpl{Exts: []pki.Ext{{OID: oidCRLDP, Value: der.Seq(
